@@ -144,6 +144,12 @@ def ev(fn, n, atom=None, depth=0):
             return ev(fn, n.kids[1], atom, depth + 1)
         a = ev(fn, n.kids[0], atom, depth + 1)
         b = ev(fn, n.kids[1], atom, depth + 1)
+        if op in ("<", ">", "<=", ">=", "==", "!="):
+            ta, tb = (n.kids[0].t or "").rstrip(), (n.kids[1].t or "").rstrip()
+            if ta.endswith("*") or tb.endswith("*"):
+                # pointer comparison: compare the 64-bit patterns (constants like (T*)-1 fold to -1)
+                a &= (1 << 64) - 1
+                b &= (1 << 64) - 1
         if op == "+":
             return wrap(a + b, n.t)
         if op == "-":
